@@ -9,6 +9,11 @@ CLAIMED = {
    technique="Coq proof (induction + checked witness tables) + regenerated tables + differential correspondence run",
    design="DESIGN.md section 5, C15"),
 }
+CLAIMED["C11"] = dict(
+   text="Theorems in coq/Props/C11.v (closed, no axioms): the three CRC-64 tables regenerated from the sources (in-repo digest, vendored and external cupcake) equal the Jones table computed in Coq from the polynomial; the digest of a concatenation equals the fold of chunked writes (any chunking); ANY single-byte substitution at any position of data of any length changes the CRC-64 (state-injectivity + byte-sensitivity of the table step); hence the end-of-file check accepts body++LE64(crc body) and rejects every one-byte substitution in body or trailer; createValueDump's payload verifies under verifyDump and CheckVersionChecksum, and a payload altered in any byte, carrying a version above the supported one (with a matching CRC) or shorter than 10 bytes is rejected by both. Differential run: three Go digests on random data x chunkings, createValueDump, both checkers on payloads of every version class, exhaustive single-byte substitution sweeps (every position x 255 values) and truncations of generated payloads and RDB images through the real Loader.",
+   note="Trusted: Coq kernel + vm_compute; goextract (tables, version constants; the external cupcake table is read from the module cache); extraction + OCaml driver. The theorem about the RDB footer is stated for a fixed parse extent (covered bytes ++ 8 trailer bytes); a substitution that makes the parser stop earlier (a byte turned into the EOF opcode) is only covered by the sweep, where acceptance would need a 2^-64 coincidence. RDB sweeps skip replacement values 0x80/0x81/0xc3 (they make the parser allocate GiB buffers).",
+   technique="Coq proof (CRC state-injectivity, induction over bytes) + regenerated tables + differential run with exhaustive substitution sweeps",
+   design="DESIGN.md section 5, C11")
 NOT_YET = {}
 props = [json.loads(l) for l in open(os.path.join(V, "properties.jsonl"))]
 hooks = subprocess.run(["git", "-C", "/repo", "log", "--format=%H %s"], capture_output=True, text=True).stdout.strip().split("\n")
